@@ -602,6 +602,99 @@ let lifel (rest : string) : string =
     | _ -> "sess=running" in
   Buffer.add_string buf ("# " ^ fin ^ " conn=open"); Buffer.contents buf
 
+(* ---------- cutm: failure propagation (C14) ---------- *)
+let cutm (rest : string) : string =
+  let evs = split_on rest ';' in
+  let hidx = function Failure.HConn -> 0 | Failure.HSess -> 1 | Failure.HTx -> 2 | Failure.HRx -> 3 in
+  let cur : string ref option array = Stdlib.Array.make 4 None in
+  let results : (string * string ref) list ref = ref [] in
+  let dropped = ref false in
+  let b c = (c = '1') in
+  let res_str = function
+    | Failure.ROk -> "ok"
+    | Failure.RErr (sc, e) ->
+        "err:" ^ (match sc with Failure.ScLink -> "link" | Failure.ScSess -> "sess" | Failure.ScConn -> "conn" | Failure.ScNone -> "none")
+        ^ (if e then "+e" else "") in
+  let st = ref Failure.init in
+  let feed (e : Failure.event) =
+    let (s1, o1) = Failure.step !st e in
+    let (s2, o2) = Failure.step s1 Failure.EProp in
+    st := s2;
+    Stdlib.List.iter (fun (Failure.Done (h, r)) ->
+      match cur.(hidx h) with
+      | Some cell when !cell = "PENDING" -> cell := res_str r ^ (if !dropped then "~" else "")
+      | _ -> ()) (o1 @ o2) in
+  Stdlib.List.iter (fun e ->
+    match Stdlib.String.index_opt e '=' with
+    | Some i ->
+        let name = Stdlib.String.sub e 0 i and kind = Stdlib.String.sub e (i + 1) (Stdlib.String.length e - i - 1) in
+        let (h, c) = match kind with
+          | "open" -> (Failure.HConn, Failure.COpen) | "begin" -> (Failure.HConn, Failure.CBegin) | "close" -> (Failure.HConn, Failure.CClose)
+          | "attach_s" -> (Failure.HSess, Failure.CAttach Failure.Snd) | "attach_r" -> (Failure.HSess, Failure.CAttach Failure.Rcv)
+          | "end" -> (Failure.HSess, Failure.CEnd)
+          | "send" -> (Failure.HTx, Failure.CSend false) | "sendb" -> (Failure.HTx, Failure.CSend true) | "out" -> (Failure.HTx, Failure.COutcome)
+          | "detach_s" -> (Failure.HTx, Failure.CDetach Failure.Snd)
+          | "recv" -> (Failure.HRx, Failure.CRecv) | "acc" -> (Failure.HRx, Failure.CAccept) | "close_r" -> (Failure.HRx, Failure.CCloseL Failure.Rcv)
+          | _ -> failwith ("cutm: bad call " ^ e) in
+        let cell = ref "PENDING" in
+        cur.(hidx h) <- Some cell;
+        results := (name, cell) :: !results;
+        feed (Failure.ECall c)
+    | None ->
+        let ev = match e with
+          | "p:O" -> Failure.EPOpen | "p:B" -> Failure.EPBegin
+          | "p:As" -> Failure.EPAttach Failure.Snd | "p:Ar" -> Failure.EPAttach Failure.Rcv
+          | "p:Fs" -> Failure.EPFlow | "p:S0" -> Failure.EPSettle false | "p:S1" -> Failure.EPSettle true
+          | "p:T" -> Failure.EPTransfer
+          | "x:eof" -> Failure.ETransport Failure.TEof | "x:reset" -> Failure.ETransport Failure.TReset
+          | "x:drop" -> dropped := true; Failure.ETransport Failure.TEof
+          | _ when Stdlib.String.length e = 6 && Stdlib.String.sub e 0 4 = "p:Ds" -> Failure.EPDetach (Failure.Snd, b e.[4], b e.[5])
+          | _ when Stdlib.String.length e = 6 && Stdlib.String.sub e 0 4 = "p:Dr" -> Failure.EPDetach (Failure.Rcv, b e.[4], b e.[5])
+          | _ when Stdlib.String.length e = 4 && Stdlib.String.sub e 0 3 = "p:E" -> Failure.EPEnd (b e.[3])
+          | _ when Stdlib.String.length e = 4 && Stdlib.String.sub e 0 3 = "p:C" -> Failure.EPClose (b e.[3])
+          | _ -> failwith ("cutm: bad event " ^ e) in
+        feed ev) evs;
+  let eng =
+    (match !st.Failure.cn.Failure.cph with Failure.COpened | Failure.CCloseSent -> 1 | _ -> 0)
+    + (match !st.Failure.ss.Failure.sph with Failure.SBeginSent | Failure.SMapped | Failure.SEndSent -> 1 | _ -> 0) in
+  Stdlib.String.concat " " (Stdlib.List.rev_map (fun (n, c) -> n ^ "=" ^ !c) !results) ^ " eng=" ^ string_of_int eng
+
+(* ---------- lifer: receiver link lifecycle (C13) ---------- *)
+let lifer (rest : string) : string =
+  let evs = split_on rest ';' in
+  let buf = Buffer.create 256 in
+  let err_str = function
+    | RecvLife.ERemoteDetached -> "RemoteDetached" | RecvLife.ERemoteClosed -> "RemoteClosed"
+    | RecvLife.ERemoteClosedWithError -> "RemoteClosedWithError(Error)"
+    | RecvLife.EDetachedByRemote -> "DetachedByRemote" | RecvLife.EClosedByRemote -> "ClosedByRemote"
+    | RecvLife.EIllegalState -> "IllegalState" in
+  let disposed = ref 0 in
+  let s = Stdlib.List.fold_left (fun s e ->
+    let ev = match words e with
+      | ["pa"] -> RecvLife.EPAttach | ["pt"] -> RecvLife.EPTransfer
+      | ["pd"] -> RecvLife.EPDetach RecvLife.QDetach | ["pdc"] -> RecvLife.EPDetach RecvLife.QClose | ["pde"] -> RecvLife.EPDetach RecvLife.QCloseErr
+      | ["recv"] -> RecvLife.ERecv | ["det"] -> RecvLife.EDetach | ["cls"] -> RecvLife.EClose
+      | ["dropl"] -> RecvLife.EDrop | ["abortl"] -> RecvLife.EAbort
+      | _ -> failwith ("lifer: bad event " ^ e) in
+    let (s', o) = RecvLife.rkstep s ev in
+    let wire = Stdlib.List.filter_map (function
+      | RecvLife.YFlow -> Some "F0h0c2"
+      | RecvLife.YDisp -> let k = !disposed in incr disposed; Some (Printf.sprintf "P0rf%ds" k)
+      | RecvLife.YDetach false -> Some "D0h0" | RecvLife.YDetach true -> Some "D0h0c"
+      | RecvLife.YAttach -> Some "A0h0r" | RecvLife.YEnd -> Some "E0e(UnattachedHandle)" | _ -> None) o in
+    let api = Stdlib.List.filter_map (function
+      | RecvLife.RAttached -> Some "att=ok"
+      | RecvLife.RRecv None -> Some "recv=ok" | RecvLife.RRecv (Some e) -> Some ("recv=err:LinkStateError(" ^ err_str e ^ ")")
+      | RecvLife.RDet None -> Some "det=ok" | RecvLife.RDet (Some e) -> Some ("det=err:" ^ err_str e)
+      | RecvLife.RCls None -> Some "cls=ok" | RecvLife.RCls (Some e) -> Some ("cls=err:" ^ err_str e)
+      | _ -> None) o in
+    Buffer.add_string buf (Stdlib.String.concat " " ([Stdlib.String.concat "," wire] @ api)); Buffer.add_string buf " ; "; s') RecvLife.RAttSent evs in
+  let fin = match s with
+    | RecvLife.RAttSent -> "att=PENDING"
+    | RecvLife.RRecvWait | RecvLife.RDetSent | RecvLife.RClsSent | RecvLife.RReattach _ | RecvLife.RReCls _ -> "link=PENDING sess=running"
+    | _ -> "sess=running" in
+  Buffer.add_string buf ("# " ^ fin ^ " conn=open"); Buffer.contents buf
+
 (* ---------- txnm: the listener-side transactional resource (C18) ---------- *)
 let txnm (rest : string) : string =
   let acts = Stdlib.List.map words (split_on rest ';') in
@@ -726,8 +819,10 @@ let dispatch (line : string) : string =
        | "rx" -> rx rest
        | "lifem" -> lifem rest
        | "lifel" -> lifel rest
+       | "lifer" -> lifer rest
        | "txcm" -> txcm rest
        | "txnm" -> txnm rest
+       | "cutm" -> cutm rest
        | "saslm" -> saslm rest
        | "ssplit" -> ssplit rest
        | "lnk" -> c11_lnk rest
